@@ -617,11 +617,11 @@ impl<'a> Parser<'a> {
     fn parse_regex_mode(&mut self) -> ParserResult<RegexMode> {
         let mut regex_mode = RegexMode::Captures;
         match self.current() {
-            Token::Identifier(identifier) if identifier == "split" => {
+            Token::Identifier(identifier) if identifier.to_lowercase() == "split" => {
                 regex_mode = RegexMode::Split;
                 self.next()?;
             }
-            Token::Identifier(identifier) if identifier == "match" => {
+            Token::Identifier(identifier) if identifier.to_lowercase() == "match" => {
                 regex_mode = RegexMode::Captures;
                 self.next()?;
             }
@@ -757,7 +757,8 @@ impl<'a> Parser<'a> {
                 Token::DoubleColon => {
                     let convert_to_type = match rhs.tree {
                         ParserExpressionTreeData::ColumnAccess(typename) => {
-                            ValueType::from_str(&typename).ok_or_else(|| ParserError::new(op_location.clone(), ParserErrorType::NotDefinedType(typename)))?
+                            // Type names are case insensitive, as in CREATE TABLE
+                            ValueType::from_str(&typename.to_lowercase()).ok_or_else(|| ParserError::new(op_location.clone(), ParserErrorType::NotDefinedType(typename)))?
                         }
                         _ => { return Err(ParserError::new(op_location, ParserErrorType::ExpectedIdentifier)); }
                     };
